@@ -251,12 +251,18 @@ bool Interp::op_add_packet(const Op &op, size_t ci, cif_container_tp *h, Contain
             }
         }
     }
-    bool partial = false;
-    if (mode == 6) {
-        // known finding F-PARTIAL: items a packet omits are documented to get the explicit unknown value but nothing is stored for them.
-        // Not generated (counted) unless the case is marked strict (the finding's witness).
-        if (!strict || ml.names.size() < 2) { cif_loop_free(lh); count_excluded("F-PARTIAL"); return true; }
-        pnames.resize(1); pvals.resize(1); partial = true;
+    // partial packet: a generated non-empty proper subset of the loop's items; the omitted ones are documented to get the explicit
+    // unknown value (F-PARTIAL, fixed: nothing used to be stored for them)
+    std::vector<size_t> kept_idx; bool partial = false;
+    if (mode == 6 && ml.names.size() >= 2) {
+        unsigned long mask = (unsigned long) arg(op, 5); size_t n = ml.names.size();
+        std::vector<bool> keep(n); size_t kept = 0;
+        for (size_t i = 0; i < n; i++) { keep[i] = (mask >> (i % 30)) & 1; if (keep[i]) kept++; }
+        if (kept == 0) { keep[(size_t) (mask % n)] = true; kept = 1; }
+        if (kept == n) keep[(size_t) ((mask / 7) % n)] = false;
+        std::vector<ustr> kn; std::vector<Value> kv;
+        for (size_t i = 0; i < n; i++) if (keep[i]) { kn.push_back(pnames[i]); kv.push_back(pvals[i]); kept_idx.push_back(i); }
+        pnames = kn; pvals = kv; partial = true; label("partial-packet");
     }
     cif_packet_tp *pkt = nullptr;
     std::vector<UChar *> np; for (auto &n : pnames) np.push_back((UChar *) n.c_str()); np.push_back(nullptr);
@@ -280,7 +286,7 @@ bool Interp::op_add_packet(const Op &op, size_t ci, cif_container_tp *h, Contain
         return true;
     }
     if (!expect(op, rc, {CIF_OK})) return false;
-    if (partial) while (pvals.size() < ml.names.size()) pvals.push_back(Value::unk());
+    if (partial) { std::vector<Value> row(ml.names.size(), Value::unk()); for (size_t i = 0; i < kept_idx.size(); i++) row[kept_idx[i]] = pvals[i]; pvals = row; }
     ml.rows.push_back(pvals); touched(ci);
     return true;
 }
@@ -595,7 +601,7 @@ bool Interp::run(const Op &op) {
         int col; int li = valid_item(name) ? find_item(*mc, name, &col) : -1;
         if (valid_item(name) && li < 0) {
             int sl = scalar_loop(*mc);
-            if (sl >= 0 && mc->loops[sl].rows.empty() && !mc->loops[sl].names.empty()) { count_excluded("F-PARTIAL"); label("skipped:F-PARTIAL"); return true; }
+            if (sl >= 0 && mc->loops[sl].rows.empty() && !mc->loops[sl].names.empty()) label("set_value:first-scalar-packet-of-named-scalar-loop");
         }
         cif_value_tp *cv = nullptr;
         if (!null_val && cm::to_cif(v, &cv) != CIF_OK) { null_val = true; }
@@ -609,7 +615,7 @@ bool Interp::run(const Op &op) {
             int sl = scalar_loop(*mc);
             if (sl < 0) { Loop s; s.has_cat = true; mc->loops.push_back(s); sl = (int) mc->loops.size() - 1; }
             Loop &s = mc->loops[sl]; s.names.push_back(name);
-            if (s.rows.empty()) s.rows.push_back({v}); else s.rows[0].push_back(v);
+            if (s.rows.empty()) { std::vector<Value> row(s.names.size() - 1, Value::unk()); row.push_back(v); s.rows.push_back(row); } else s.rows[0].push_back(v);
             note_created(name);
         }
         touched(ci);
@@ -810,9 +816,6 @@ int main(int argc, char **argv) {
     };
     e.replay = run_case;
     e.classify = [](const CaseFile &c) {
-        // F-PARTIAL: only a strict case can contain a partial packet (mode 6 add_packet is skipped otherwise)
-        if (!c.geti("strict")) return std::string();
-        for (auto &op : parse_ops(c.get("ops"))) if (op.code == OP_ADD_PACKET && arg(op, 3) % 8 == 6) return std::string("F-PARTIAL");
         return std::string();
     };
     return engine_main(argc, argv, e);
